@@ -420,6 +420,25 @@ def gen_election(rng: random.Random, btypes=("app", "card", "cum", "ord"), m_lo=
     return Case(projects, budget, btype, ballots, seed=sub)
 
 
+def gen_big_election(rng: random.Random, btypes=("app",), m=(6, 9), n=(5, 9), distinct=6):
+    """larger elections with varied costs and a budget that is a fraction of the total: several rounds with
+    binding budgets (lazy-evaluation and caching slips only show after a few rounds)"""
+    sub = rng.getrandbits(48)
+    r = random.Random(sub)
+    btype = r.choice(list(btypes))
+    k = r.randint(*m)
+    names = r.sample(["q%02d" % i for i in range(24)], k)
+    pool = r.choice([[1, 2, 3, 4, 5, 6, 7, 8], [1, 2, 3, 5, 8, 13], [2, 3, 4, F(5, 2), F(7, 2), 6], [1, 1, 2, 2, 3, 3, 4]])
+    projects = [(nm, F(r.choice(pool))) for nm in names]
+    tot = sum((c for _, c in projects), F(0))
+    budget = tot * F(r.choice([1, 2, 1]), r.choice([3, 4, 2]))
+    if budget <= 0:
+        budget = F(1)
+    nv = r.randint(*n)
+    ballots = gen_ballots(r, btype, names, nv, nv, distinct_hi=distinct)
+    return Case(projects, budget, btype, ballots, seed=sub)
+
+
 def gen_init(rng: random.Random, case: Case):
     """a random feasible subset as initial allocation (often empty)"""
     if rng.random() < 0.6 or not case.projects:
